@@ -63,9 +63,9 @@ type C10Outer struct {
 	NoTag int
 }
 
-func (o *C10Outer) Echo(x *C10Outer) *C10Outer    { return x }
-func (o *C10Outer) EchoIn(x *C10Inner) *C10Inner  { return x }
-func (o *C10Outer) Describe() string              { return c10Describe(o) }
+func (o *C10Outer) Echo(x *C10Outer) *C10Outer     { return x }
+func (o *C10Outer) EchoIn(x *C10Inner) *C10Inner   { return x }
+func (o *C10Outer) Describe() string               { return c10Describe(o) }
 func (o *C10Outer) DescribeArg(x *C10Outer) string { return c10Describe(x) }
 
 var c10once sync.Once
@@ -342,10 +342,11 @@ func init() {
 			"int into a float64 field is an accepted conversion (value preserved)",
 			"time.Time members come back from Go as nil (pinned by the repository's own Test018), so a time field is only required to arrive in Go (non-zero) and is expected to be nil after the trip back",
 		},
-		NCases:  func(c *core.Ctx) int { return thorN(c, 2000, 50000) },
-		Chunk:   100,
-		MustSee: []string{"record_to_go", "receiver_conversions", "argument_conversions", "echo_round_trips", "shared_records", "negative_cases"},
-		Run:     c10Run,
+		NCases:   func(c *core.Ctx) int { return thorN(c, 2000, 50000) },
+		Chunk:    100,
+		Sanitize: true,
+		MustSee:  []string{"record_to_go", "receiver_conversions", "argument_conversions", "echo_round_trips", "shared_records", "negative_cases"},
+		Run:      c10Run,
 	})
 }
 
